@@ -25,12 +25,22 @@ impl<'a> RtcpPacketParser<'a> for Sdes<'a> {
     fn parse(data: &'a [u8]) -> Result<Self, RtcpParseError> {
         parser::check_packet::<Self>(data)?;
 
+        // the chunks end where the (optional) padding starts
+        let padding = parser::parse_padding(data).unwrap_or(0) as usize;
+        if data.len() < Self::MIN_PACKET_LEN + padding {
+            return Err(RtcpParseError::Truncated {
+                expected: Self::MIN_PACKET_LEN + padding,
+                actual: data.len(),
+            });
+        }
+        let chunks_end = data.len() - padding;
+
         let mut chunks = vec![];
-        if data.len() > Self::MIN_PACKET_LEN {
+        if chunks_end > Self::MIN_PACKET_LEN {
             let mut offset = Self::MIN_PACKET_LEN;
 
-            while offset < data.len() {
-                let (chunk, end) = SdesChunk::parse(&data[offset..])?;
+            while offset < chunks_end {
+                let (chunk, end) = SdesChunk::parse(&data[offset..chunks_end])?;
                 offset += end;
                 chunks.push(chunk);
             }
